@@ -134,6 +134,13 @@ type world struct {
 }
 
 func newWorld(r *ev.Run, mode string, caseIdx int, handles string, rng *rand.Rand, yield bool) *world {
+	return newWorldNA(r, mode, caseIdx, handles, rng, yield, false)
+}
+
+// newWorldNA builds a world; with namedAttrs the pool-backed files and the
+// directories get the in-memory named-attributes factory wired up the way
+// virtualBuildDirectory.InstallHooks does it (namedattr_test.go).
+func newWorldNA(r *ev.Run, mode string, caseIdx int, handles string, rng *rand.Rand, yield, namedAttrs bool) *world {
 	w := &world{r: r, mode: mode, caseIdx: caseIdx, handles: handles, rng: rng, sits: map[string]int{}, h: sha256.New(), fns: digestFns(), watchdog: 30 * time.Second}
 	w.pool = &instrPool{rep: w, yield: yield}
 	w.errors = &countingErrorLogger{}
@@ -150,18 +157,26 @@ func newWorld(r *ev.Run, mode string, caseIdx int, handles string, rng *rand.Ran
 	defaultAttributesSetter := func(requested virtual.AttributesMask, attributes *virtual.Attributes) {}
 	symlinkFactory := virtual.NewBaseSymlinkFactory(defaultAttributesSetter)
 	clock := vclock.New(1000)
+	namedAttributesFactory := virtual.NoNamedAttributesFactory
+	if namedAttrs {
+		attributeFileAllocator := virtual.NewPoolBackedFileAllocator(w.pool, w.errors, defaultAttributesSetter, virtual.InNamedAttributeDirectoryNamedAttributesFactory)
+		if handles != "bare" {
+			attributeFileAllocator = virtual.NewHandleAllocatingFileAllocator(attributeFileAllocator, handleAllocator)
+		}
+		namedAttributesFactory = virtual.NewInMemoryNamedAttributesFactory(attributeFileAllocator, symlinkFactory, w.errors, handleAllocator, clock)
+	}
 	var fileAllocator virtual.FileAllocator
 	switch {
 	case handles == "bare":
 		// No handle allocator in front of the files: link counting
 		// is done by the pool-backed file itself.
-		fileAllocator = virtual.NewPoolBackedFileAllocator(w.pool, w.errors, defaultAttributesSetter, virtual.NoNamedAttributesFactory)
+		fileAllocator = virtual.NewPoolBackedFileAllocator(w.pool, w.errors, defaultAttributesSetter, namedAttributesFactory)
 		w.mask = attrMask &^ (virtual.AttributesMaskLinkCount | virtual.AttributesMaskInodeNumber | virtual.AttributesMaskFileHandle)
 	case w.viaBuilder:
 		fileAllocator = noHooksFileAllocator{}
 	default:
 		fileAllocator = virtual.NewHandleAllocatingFileAllocator(
-			virtual.NewPoolBackedFileAllocator(w.pool, w.errors, defaultAttributesSetter, virtual.NoNamedAttributesFactory),
+			virtual.NewPoolBackedFileAllocator(w.pool, w.errors, defaultAttributesSetter, namedAttributesFactory),
 			handleAllocator)
 	}
 	root := virtual.NewInMemoryPrepopulatedDirectory(
@@ -175,7 +190,7 @@ func newWorld(r *ev.Run, mode string, caseIdx int, handles string, rng *rand.Ran
 		clock,
 		virtual.CaseSensitiveComponentNormalizer,
 		defaultAttributesSetter,
-		virtual.NoNamedAttributesFactory)
+		namedAttributesFactory)
 	var bd builder.BuildDirectory
 	if w.viaBuilder {
 		w.router = &routerCAS{}
@@ -1612,6 +1627,7 @@ func TestCheck(t *testing.T) {
 	r := ev.Start("C16")
 	defer r.Finish()
 	r.SetRule("stepped cases: PRNG(seed, case) drives 30-150 operations (create/open with every share mask, close, link, unlink, rename-over, remove-all, entry removed by RemoveAll / replaced by a directory / removed with its parent directory / hidden entry removed by rmdir, write, set size, allocate, read, upload with 3 digest functions and CAS/pool faults, frozen open/read/close, stat digest, operations on files without references) on up to 4 files in 2 directories, alternating NFS and FUSE handle allocators; mutating calls issued while frozen readers exist and uploads issued while writers exist run in their own goroutine and are released by the driver. " +
+		"named-attribute cases (namedattr_test.go): one owner file with the production in-memory named-attributes factory; OPENATTR without/with create, 1-3 pool-backed attribute files created/written/opened/closed/hard-linked/renamed/removed inside the attribute directory, then the owner's links, descriptors and frozen readers are dropped in PRNG order, interleaved with attribute operations; the attribute files are model files whose entries vanish when the owner loses its last reference. " +
 		"stress rounds: 6-12 goroutines mixing the same operations on 1-2 files with slow CAS reads. Non-trivial = hit at least one listed situation; distinct = distinct sha256 of the operation/result log.")
 	r.Assume("VirtualRead/VirtualWrite/VirtualAllocate/VirtualClose are only called with a matching open descriptor (API precondition of Leaf)")
 	r.Assume("the bounded wait for writers is best effort: an upload that does not wait is counted, not reported")
@@ -1630,6 +1646,8 @@ func TestCheck(t *testing.T) {
 		}
 		if mode == "stepped" {
 			runStepped(r, idx)
+		} else if mode == "namedattr" {
+			runNamedAttr(r, idx)
 		} else {
 			for k := 0; k < 20 && !stopRun.Load(); k++ {
 				runStressRound(r, idx)
@@ -1637,12 +1655,17 @@ func TestCheck(t *testing.T) {
 		}
 		return
 	}
+	floors = append(floors, namedAttrFloors...)
 	for _, s := range floors {
 		r.Floor(s, 3)
 	}
 	n := r.Pick(600, 8000)
 	for i := 0; i < n && !stopRun.Load(); i++ {
 		runStepped(r, i)
+	}
+	na := r.Pick(240, 3000)
+	for i := 0; i < na && !stopRun.Load(); i++ {
+		runNamedAttr(r, i)
 	}
 	rounds := r.Pick(120, 1500)
 	for i := 0; i < rounds && !stopRun.Load(); i++ {
